@@ -29,7 +29,7 @@ PROPS = {
                 rule="one run = one simulated client/server connection (handshake, 1..12 data rounds, orderly close) "
                      "generated from H(VERIF_SEED, scenario, index); non-trivial = at least 3 context switches between "
                      "the endpoint tasks; distinct = distinct interleaving ids (hash of the sequence of (step, from-task, to-task) switches)"),
-    "C10": dict(level="fault_enumeration", design="4.3",
+    "C10": dict(level="fault_enumeration", design="4.3", memclass="foreign", cell_keys=["proto", "mutual", "kind", "dir"],
                 parts=[("mitm-hs", "plain", 12, 240, []), ("mitm-hs", "asan", 4, 48, [])],
                 quick_s=70, thorough_s=900, quick_max=200000, thorough_max=4000000,
                 expect_probes=["fault_fired"],
@@ -38,7 +38,7 @@ PROPS = {
                      "the payload of every handshake record, drop, duplicate, swap-with-next, truncate, extend, inject (alert/CCS/garbage), replay, "
                      "peer crash at a byte offset; non-trivial = the fault really fired on a record that passed the interposer and the twin passed the "
                      "honest oracle; distinct = distinct (config, fault kind, direction, record, offset, bit, args) ids"),
-    "C11": dict(level="fault_enumeration", design="4.4",
+    "C11": dict(level="fault_enumeration", design="4.4", memclass="foreign", cell_keys=["proto", "kind", "region"],
                 parts=[("mitm-data", "plain", 12, 240, []), ("mitm-data", "asan", 4, 48, [])],
                 quick_s=70, thorough_s=900, quick_max=200000, thorough_max=4000000,
                 expect_probes=["fault_fired"],
@@ -46,9 +46,20 @@ PROPS = {
                      "connection: bit flip (stratified over header, IV, body, MAC/padding/tag region, last byte), truncate/extend by 1..32 bytes with and "
                      "without header fix-up, duplicate, replay of an earlier record, swap, drop, forged record; non-trivial = fault fired and twin passed; "
                      "distinct = distinct (config, kind, direction, record, offset, bit, args) ids"),
+    "C09": dict(level="fault_enumeration", design="4.2", memclass="foreign", cell_keys=["proto", "defect", "role"],
+                parts=[("auth", "plain", 12, 100, []), ("auth", "asan", 4, 25, [])],
+                quick_s=75, thorough_s=900, quick_max=100000, thorough_max=2000000,
+                rule="one run = a defect-free twin connection (must pass the honest oracle) followed by the same connection with exactly one "
+                     "credential/message defect on the proving side: foreign root (same/other name), expired / not-yet-valid leaf or intermediate "
+                     "(boundary +-1 s .. 400 d), verifier clock ahead/behind/jumping, issuer with cA=FALSE / without basicConstraints / without "
+                     "keyCertSign / pathLen exceeded / an end-entity certificate as issuer, one flipped bit in leaf or intermediate, certificate held "
+                     "with another private key (signing key; TLCP encryption key), TLCP encryption certificate from a foreign issuer, client without "
+                     "certificate, client Certificate / CertificateVerify removed or emptied in flight; x 3 protocols x verifying role x chain depth; "
+                     "non-trivial = the defect was really in effect; distinct = distinct (protocol, defect, role, depth, mutual, defect argument) ids"),
 }
 
 ALL_VARIANTS = ["plain", "asan"]
+MEMCLASSES = ("hang:", "memerr:", "crash:", "state_corrupt", "no_termination")
 
 KV = re.compile(r'(\w+)=("([^"]*)"|\S+)')
 
@@ -399,6 +410,22 @@ def run_check(prop, tier, seed):
                 c["class"], c["variant"], c["detail"] = ra["cls"], "asan", ra["detail"][:600]
         byclass.setdefault(c["class"], []).append(c)
 
+    # Memory errors, hangs and state corruption provoked by tampered or malicious
+    # traffic are what C06 states; in the fault-injecting checks of other
+    # properties they are recorded but not reported as that property's violation
+    # (the C06 check runs the same scenarios and reports them).
+    foreign_events = []
+    mode = cfg.get("memclass", "own")
+    for cls in list(byclass):
+        is_mem = cls.startswith(MEMCLASSES)
+        if (mode == "foreign" and is_mem) or (mode == "only" and not is_mem):
+            reps = byclass.pop(cls)
+            foreign_events.append(dict(key=cls, count=len(reps), belongs_to="C06" if is_mem else reps[0].get("scn", "?"),
+                                       index=reps[0].get("idx"), variant=reps[0].get("variant"), scenario=reps[0].get("scn")))
+            print(f"NOTE: {len(reps)} run(s) ended with class {cls}, which is not a statement of {prop}; "
+                  f"it is reported by the check of {'C06' if is_mem else 'the scenario own property'}")
+    cfg["_foreign_events"] = foreign_events
+
     known = load_known()
     os.makedirs(REPLAYS, exist_ok=True)
     violations, known_hits, rc = [], [], 0
@@ -474,6 +501,15 @@ def write_evidence(prop, tier, seed, cfg, runs, violations, known_hits, explore_
         if m:
             k = f"{m.group(1)}/{'mutual' if m.group(2)=='1' else 'server-auth'}/depth{m.group(3)}"
             by_cfg[k] = by_cfg.get(k, 0) + 1
+    cells = {}
+    ck = cfg.get("cell_keys")
+    if ck:
+        for d in runs:
+            if d.get("nt") != "1":
+                continue
+            ex = dict(KV.findall(d.get("extra", "")) and [(m.group(1), m.group(3) if m.group(3) is not None else m.group(2)) for m in KV.finditer(d.get("extra", ""))])
+            key = "/".join(ex.get(k, "?") for k in ck)
+            cells[key] = cells.get(key, 0) + 1
     samples = []
     for d in runs[:3]:
         plan = gen_plan(d["variant"], d["scn"], seed, int(d["idx"]), tier)
@@ -500,6 +536,7 @@ def write_evidence(prop, tier, seed, cfg, runs, violations, known_hits, explore_
             probes_stuck_at_zero=[k for k in pn if probes.get(k, 0) == 0 and k in cfg.get("expect_probes", [])],
             runs_by_variant=by_variant,
             runs_by_config=by_cfg,
+            cells=dict(keys=ck, hit=len(cells), min_runs_in_a_cell=min(cells.values()) if cells else 0, counts=cells) if ck else None,
             twin_failed=sum(1 for d in runs if d.get("twinfail") == "1"),
             components=dict(
                 real=["all of libgmssl.a built from /repo's working tree (TLS/TLCP/TLS1.3 handshake and record layer, X.509, SM2/SM3/SM4, ASN.1)"],
@@ -507,6 +544,7 @@ def write_evidence(prop, tier, seed, cfg, runs, violations, known_hits, explore_
                          "command-line tools (their main()s are not run; endpoints call the same public API)"]),
             known_findings=known_hits,
             violations=violations,
+            events_of_other_properties=cfg.get("_foreign_events", []),
             exhaustive=False,
         ),
         assumptions=[
